@@ -1177,7 +1177,7 @@ func (P *Prog) checkBalance(r *Result, rule string) {
 			r.ok(rule, c, P.pos(fn.Pos()), "net effect of exactly one segment on every path")
 		}
 	}
-	r.floor(rule, 4)
+	r.floor(rule, 2)
 }
 
 // lenIsZero: the comparison `len(x) <op> k` taken with the given truth value says exactly len(x) == 0.
